@@ -647,6 +647,7 @@ fn run_props(m: &BTreeMap<String, String>, want: Option<&str>) -> String {
     let h2 = "handle:c17map0000000000000b";
     let sub: HashMap<String, StateValue> = m.iter().map(|(k, v)| (k.clone(), StateValue::String(v.clone()))).collect();
     handles(&mut ctx).insert(h1.to_string(), StateValue::SubState(sub));
+    other_handles(&mut ctx);
     let mut last = String::new();
     for _ in 0..ORDER_TRIES {
         handles(&mut ctx).insert(h2.to_string(), StateValue::SubState(HashMap::new()));
@@ -691,6 +692,7 @@ fn run_write(m: &BTreeMap<String, String>, want: &str) -> String {
     let h1 = "handle:c17map0000000000000a";
     let sub: HashMap<String, StateValue> = m.iter().map(|(k, v)| (k.clone(), StateValue::String(v.clone()))).collect();
     handles(&mut ctx).insert(h1.to_string(), StateValue::SubState(sub));
+    other_handles(&mut ctx);
     let mut last = String::new();
     for _ in 0..ORDER_TRIES {
         last = match call(&mut ctx, "map_to_properties", &[val(h1)]) {
@@ -852,7 +854,21 @@ fn gen_props(rng: &mut Rng) -> BTreeMap<String, String> {
     for _ in 0..rng.below(6) {
         m.insert(gen_prop_text(rng, 1), gen_prop_text(rng, 0));
     }
+    // one map in eight holds, as a value (or as a key), the text of a LIVE handle: of another map
+    // with entries (`…c`), of the empty target map (`…b`), of the map itself (`…a`) — a value is
+    // a text, whatever it happens to name
+    if rng.chance(1, 8) {
+        let h = rng.pick_s(&["handle:c17map0000000000000c", "handle:c17map0000000000000b", "handle:c17map0000000000000a", "handle:c17arr0000000000000d"]).to_string();
+        if rng.chance(1, 4) { m.insert(h, gen_prop_text(rng, 0)); } else { m.insert(rng.pick_s(&["server", "k", "a.b"]).to_string(), h); }
+    }
     m
+}
+
+/// the other live collections every properties run finds in the handle table
+fn other_handles(ctx: &mut Context) {
+    let sub: HashMap<String, StateValue> = [("host", "example.org"), ("port", "80")].iter().map(|(k, v)| (k.to_string(), StateValue::String(v.to_string()))).collect();
+    handles(ctx).insert("handle:c17map0000000000000c".to_string(), StateValue::SubState(sub));
+    handles(ctx).insert("handle:c17arr0000000000000d".to_string(), StateValue::List(vec![StateValue::String("x".to_string())]));
 }
 
 fn mutate_b64(rng: &mut Rng, s: &str) -> String {
